@@ -1379,6 +1379,10 @@ func (client *client) pollInflights() (cont bool, err error) {
 			// https://docs.oasis-open.org/mqtt/mqtt/v5.0/os/mqtt-v5.0-os.html#_Subscription_Options
 			// The Server need not use the same set of Subscription Identifiers in the retransmitted PUBLISH packet.
 			m.SubscriptionIdentifier = nil
+			// retransmissions count against the Receive Maximum of this connection too
+			if !client.pl.waitForWindowLocked() {
+				return false, nil
+			}
 			client.pl.markUsedLocked(id)
 			client.write(gmqtt.MessageToPublish(m.Message, client.version))
 		case *queue.Pubrel:
